@@ -283,6 +283,41 @@ func (c *Ctx) shadowAssignedUnderNilTest(fn *ssa.Function, wrapper types.Type, j
 			}
 		}
 	})
+	// ... or through a helper that is handed the address of the wrapper field: setIfNonNil(&ms.Enum, s.Enum)
+	core.EachInstr(fn, func(i ssa.Instruction) {
+		call, ok := i.(*ssa.Call)
+		if !ok {
+			return
+		}
+		h := call.Call.StaticCallee()
+		if h == nil || !c.P.InPkg(h) || len(h.Blocks) == 0 {
+			return
+		}
+		for ai, a := range call.Call.Args {
+			fa, ok := a.(*ssa.FieldAddr)
+			if !ok || len(jf.Path) != 1 || fa.Field != jf.Path[0] || !types.Identical(derefType(fa.X.Type()), wrapper) || ai >= len(h.Params) {
+				continue
+			}
+			hi := core.Info(h)
+			core.EachInstr(h, func(j ssa.Instruction) {
+				st, ok := j.(*ssa.Store)
+				if !ok || st.Addr != ssa.Value(h.Params[ai]) {
+					return
+				}
+				if _, isConstNil := st.Val.(*ssa.Const); isConstNil {
+					return
+				}
+				nStores++
+				checkGuards(call)
+				for _, br := range hi.Guards(st.Block()) {
+					cond, _ := br.Cond()
+					if usesLen(cond, 4) {
+						bad = "its assignment in " + core.FuncName(h) + " at " + c.pos(st) + " is guarded by a length test, so an empty but non-nil value is dropped"
+					}
+				}
+			})
+		}
+	})
 	if nStores == 0 {
 		return false, "the wrapper field is never assigned from the Schema field"
 	}
